@@ -32,7 +32,8 @@ PHASES = ["main"]
 EXCLUDED_OPS = []
 
 FAULT_KINDS = ["io_extend", "io_setslice", "g_extend", "g_insert_before", "g_insert_after", "g_remove",
-               "g_remove_safe", "init_update", "conv_rename", "conv_rauw", "g_sort_cycle", "io_setslice_ext", "conv_rename_graphs"]
+               "g_remove_safe", "init_update", "conv_rename", "conv_rauw", "g_sort_cycle", "io_setslice_ext", "conv_rename_graphs",
+               "v_rauw_foreign"]
 
 
 def strategy(tier, phase):
@@ -263,6 +264,21 @@ def _fault_enum(u, op):
             except Exception:
                 pass
             u.sweep()
+            if f:
+                return calls, f
+    elif kind == "v_rauw_foreign":
+        # the method spelling Value.replace_all_uses_with(replace_graph_outputs=True) on a value that is consumed by nodes AND
+        # listed as a graph output, with a replacement that another graph owns: rejected as a whole, consumers included
+        cands = [v for v in u.values if v.is_graph_output() and v.uses() and v.graph is not None]
+        if not cands:
+            return 0, None
+        x = cands[pick % len(cands)]
+        foreign = [v for v in u.values if v is not x and any(g is not x.graph for g in _role_owner(u, v))]
+        if not foreign:
+            return 0, None
+        for k in range(min(3, len(foreign))):
+            r = foreign[(pick + k) % len(foreign)]
+            st, f = attempt(lambda: x.replace_all_uses_with(r, replace_graph_outputs=True), "Value.replace_all_uses_with(graph outputs, foreign replacement)")
             if f:
                 return calls, f
     elif kind == "io_setslice_ext":
